@@ -1,7 +1,9 @@
 """C13 — rel conditions: canonical lookup, fail closed, memoised per decision only.
 
-Implementation side: Guard with recording relationship checkers (sync, async coroutine, mixed, returning
-non-bool truthy/falsy values, raising, raising in bool(), slow beyond the time-out (patched down), absent),
+Implementation side: Guard with recording relationship checkers (plain, and asynchronous in every shape the port
+allows: async def, plain def returning a coroutine / an asyncio Future / a Task of the captured loop / an object with
+only __await__, a functools.wraps-decorated async def, an object with async __call__, functools.partial of an async
+function, or a per-query mix; returning non-bool truthy/falsy values, raising, raising in bool(), slow beyond the time-out (patched down), absent),
 policies with rel in short and extended form (overrides as literals / attribute references, with/without
 ':', ctx merged over context._rebac), nested under and/or/not, repeated, over several rules, in policy sets,
 through the compiled function, the set interpreter and the compiled->interpreter fallback; sequences of
@@ -23,6 +25,7 @@ import asyncio
 import contextvars
 import copy
 import datetime as _dt
+import functools
 import hashlib
 import itertools
 import json
@@ -36,6 +39,7 @@ RUNNER = "relcond"
 FID = "F25"
 THEOREMS = ["c13_exact_triple_calls", "c13_exact_triple_holds", "c13_at_most_once", "c13_memo_transparent",
             "c13_fresh_per_decision", "c13_fail_closed_decision"]
+TWIN_KINDS = ("sync", "values", "flaky", "raising", "badbool", "slow")
 SLOW_T = 0.4     # patched time-out (s) in cases with a slow checker
 
 DEC = contextvars.ContextVar("c13_decision", default=None)
@@ -147,8 +151,7 @@ def truth(data, s, r, o, ctx):
 
 def respond(kind, data, s, r, o, ctx):
     """what the configured checker does with this query: ["ret", v] | ["raise"] | ["timeout"] | ["badbool"]"""
-    if kind and kind.endswith("_async"):     # same answers, delivered through a coroutine
-        kind = kind[:-6]
+    kind = base_kind(kind)                   # the answers do not depend on how they are delivered
     t = truth(data, s, r, o, ctx)
     h = _h(dict(data, salt=data.get("salt", 0) + 7919), s, r, o, ctx)
     if kind == "raising":
@@ -165,12 +168,42 @@ def respond(kind, data, s, r, o, ctx):
     return ["ret", t]
 
 
-def delivery(kind, data, s, r, o, ctx):
-    if kind in ("async", "slow") or (kind and kind.endswith("_async")):
-        return "async"
+# every way a checker can be asynchronous (the port allows `bool | Awaitable[bool]`)
+PER_CALL_SHAPES = ["plain", "coro", "future", "task", "await_obj"]            # decided by what check() returns
+ATTR_SHAPES = ["async_def", "decorated", "callable_obj", "partial"]           # decided by what `check` is
+SHAPES = PER_CALL_SHAPES + ATTR_SHAPES
+ASYNC_SHAPES = [x for x in SHAPES if x != "plain"]
+
+
+def base_kind(kind):
+    """the answer kind without the legacy delivery suffix / names"""
+    if not kind:
+        return kind
+    if kind.endswith("_async"):
+        return kind[:-6]
+    return {"async": "sync", "mixed": "sync"}.get(kind, kind)
+
+
+def case_shape(kind, shape):
+    """the delivery shape of a checker: explicit, or what the legacy kind names imply"""
+    if shape:
+        return shape
+    if kind in ("async", "slow"):
+        return "async_def"
     if kind == "mixed":
-        return "async" if _h(dict(data, salt=data.get("salt", 0) + 104729), s, r, o, ctx) % 2 else "sync"
-    return "sync"
+        return "mixed"
+    if kind and kind.endswith("_async"):
+        return "coro"
+    return "plain"
+
+
+def delivery(kind, data, s, r, o, ctx, shape=None):
+    """how the answer to this query is handed over"""
+    sh = case_shape(kind, shape)
+    if sh == "mixed":
+        pool = PER_CALL_SHAPES if base_kind(kind) != "slow" else PER_CALL_SHAPES[1:]
+        return pool[_h(dict(data, salt=data.get("salt", 0) + 104729), s, r, o, ctx) % len(pool)]
+    return sh
 
 
 def model_resp(resp):
@@ -291,20 +324,61 @@ class BadBool:
         raise RuntimeError("no truth value")
 
 
+class OnlyAwait:
+    """awaitable through __await__ only: neither a coroutine object nor an asyncio Future (a client "call" object)"""
+
+    def __init__(self, make):
+        self._make = make
+
+    def __await__(self):
+        return self._make().__await__()
+
+
+def decorated(fn):
+    """a decorator as libraries write them: the wrapper is a plain function that returns the coroutine"""
+    @functools.wraps(fn)
+    def wrapper(*a, **kw):
+        return fn(*a, **kw)
+    return wrapper
+
+
+class AsyncCallable:
+    """an object whose __call__ is async, used as the `check` attribute"""
+
+    def __init__(self, rec):
+        self.rec = rec
+
+    async def __call__(self, subject, relation, resource, *, context=None):
+        return await self.rec._acheck(subject, relation, resource, context=context)
+
+
+async def _partial_target(rec, subject, relation, resource, *, context=None):
+    return await rec._acheck(subject, relation, resource, context=context)
+
+
 class Recorder:
     """records every call at call time with the decision it belongs to (harness ContextVar, which the
-    engine's own context propagation carries into the worker thread and into the awaited coroutine)"""
+    engine's own context propagation carries into the worker thread and into the awaited coroutine).
+    shape = how the checker is asynchronous (SHAPES); the answers are the same whatever the shape."""
 
-    def __init__(self, eng, kind, data):
+    def __init__(self, eng, kind, data, shape=None):
         self.eng, self.kind, self.data = eng, kind, data
+        self.shape = case_shape(kind, shape)
         self.calls = []
-        self.pending = []
+        if self.shape == "async_def":
+            self.check = self._acheck                      # a coroutine function (bound async method)
+        elif self.shape == "decorated":
+            self.check = decorated(self._acheck)
+        elif self.shape == "callable_obj":
+            self.check = AsyncCallable(self)
+        elif self.shape == "partial":
+            self.check = functools.partial(_partial_target, self)
 
     def _note(self, subject, relation, resource, context):
         ctx = copy.deepcopy(context)
         d = self.data() if callable(self.data) else self.data
         resp = respond(self.kind, d, subject, relation, resource, ctx)
-        how = delivery(self.kind, d, subject, relation, resource, ctx)
+        how = delivery(self.kind, d, subject, relation, resource, ctx, self.shape)
         self.calls.append({"eng": self.eng, "dec": DEC.get(), "q": [subject, relation, resource, ctx], "resp": resp,
                            "how": how, "ctx_is_dict": isinstance(context, dict)})
         return resp, how
@@ -324,18 +398,62 @@ class Recorder:
             await ev.wait()
         return self._now(resp)
 
+    async def _acheck(self, subject, relation, resource, *, context=None):
+        resp, _how = self._note(subject, relation, resource, context)
+        return await self._later(resp)
+
+    def _future(self, resp, loop):
+        """an asyncio Future of the captured loop, resolved later from the loop itself (or never: time-out)"""
+        fut = loop.create_future()
+
+        def fire():
+            if fut.done() or resp[0] == "timeout":
+                return
+            try:
+                fut.set_result(self._now(resp))
+            except Exception as e:  # noqa: BLE001
+                fut.set_exception(e)
+
+        loop.call_soon_threadsafe(fire)
+        return fut
+
+    def _task(self, resp, loop):
+        """an asyncio Task created on the captured loop (from the loop's own thread)"""
+        box, ready = {}, threading.Event()
+
+        def make():
+            box["t"] = loop.create_task(self._later(resp))
+            ready.set()
+
+        loop.call_soon_threadsafe(make)
+        if not ready.wait(10):
+            raise RuntimeError("harness: the captured loop did not run")
+        return box["t"]
+
     def check(self, subject, relation, resource, *, context=None):
         resp, how = self._note(subject, relation, resource, context)
-        if how == "async":
-            return self._later(resp)
-        return self._now(resp)
+        if how == "plain":
+            return self._now(resp)
+        if how in ("future", "task"):
+            from rbacx.core.relctx import EVAL_LOOP
+            loop = EVAL_LOOP.get()
+            if loop is not None:
+                return self._future(resp, loop) if how == "future" else self._task(resp, loop)
+            how = "coro"
+        if how == "await_obj":
+            return OnlyAwait(lambda: self._later(resp))
+        return self._later(resp)
 
     def batch_check(self, triples, *, context=None):
         return [self.check(*t, context=context) for t in triples]
 
 
 class AsyncRecorder(Recorder):
-    """a genuine `async def check`: the body (and the recording) runs inside the awaited coroutine"""
+    """a genuine class-level `async def check`: the body (and the recording) runs inside the awaited coroutine"""
+
+    def __init__(self, eng, kind, data, shape=None):
+        Recorder.__init__(self, eng, kind, data, "async_def")
+        self.__dict__.pop("check", None)
 
     async def check(self, subject, relation, resource, *, context=None):  # type: ignore[override]
         resp, _how = self._note(subject, relation, resource, context)
@@ -345,12 +463,12 @@ class AsyncRecorder(Recorder):
         return self._now(resp)
 
 
-def make_checker(eng, kind, data):
+def make_checker(eng, kind, data, shape=None):
     if not kind:
         return None
-    if kind in ("async", "slow"):
+    if shape is None and kind in ("async", "slow"):
         return AsyncRecorder(eng, kind, data)
-    return Recorder(eng, kind, data)
+    return Recorder(eng, kind, data, shape)
 
 
 def dec_dict(d):
@@ -398,7 +516,7 @@ def _guard(policy, strict, checker):
 
 def run_seq_impl(c):
     cur = {"data": {}}
-    rec = make_checker(0, c.get("checker"), lambda: cur["data"])
+    rec = make_checker(0, c.get("checker"), lambda: cur["data"], c.get("shape"))
     g = _guard(c["policy"], c.get("strict"), rec)
     api = c.get("api", "async")
     out = []
@@ -425,7 +543,7 @@ def run_seq_impl(c):
         for k, step in enumerate(c["steps"]):
             await one_async(k, step)
 
-    with patched_timeout(c.get("checker") == "slow"):
+    with patched_timeout(base_kind(c.get("checker")) == "slow"):
         if api == "sync":
             for k, step in enumerate(c["steps"]):
                 cur["data"] = step.get("data") or {}
@@ -443,7 +561,7 @@ def run_seq_impl(c):
 def run_conc_impl(c):
     recs, guards = [], []
     for i, e in enumerate(c["engines"]):
-        rec = make_checker(i, e.get("checker"), e.get("data") or {})
+        rec = make_checker(i, e.get("checker"), e.get("data") or {}, e.get("shape"))
         recs.append(rec)
         guards.append(_guard(e["policy"], e.get("strict"), rec))
     jobs = c["jobs"]
@@ -491,7 +609,7 @@ def run_cond_impl(c):
     """rbacx.core.policy.eval_condition with the three context variables set by hand"""
     from rbacx.core import policy as pol
     from rbacx.core.relctx import EVAL_LOOP, REL_CHECKER, REL_LOCAL_CACHE
-    rec = make_checker(0, c.get("checker"), c.get("data") or {})
+    rec = make_checker(0, c.get("checker"), c.get("data") or {}, c.get("shape"))
     memo = c.get("memo", True)
     cache = {} if memo is True else (None if memo is False else [])
 
@@ -923,10 +1041,11 @@ def check_cases(chk, cases, replay=False, search=True):
 
 def _check_cases(chk, cases, replay=False, search=True):
     cases = [c for c in cases]
-    # sync/async twins: same data delivered through an async checker must give the same decisions and lookups
+    # sync/async twins: the same relationship data through the plain synchronous checker and through an
+    # asynchronous one (every shape in turn) must give the same decisions and the same lookups
     twins = []
     for c in cases:
-        if c.get("kind", "seq") == "seq" and c.get("checker") in ("sync", "values", "flaky") and (replay or c.get("twin")):
+        if c.get("kind", "seq") == "seq" and base_kind(c.get("checker")) in TWIN_KINDS and (replay or c.get("twin")):
             twins.append(c)
     impls = run_impl(cases)
     models = model_lines(cases, impls)
@@ -944,19 +1063,27 @@ def _check_cases(chk, cases, replay=False, search=True):
             bad_cases.append(c)
     # (e) sync vs async delivery
     if twins:
-        def as_async(c):
+        def reshaped(c, shape):
             t = copy.deepcopy(c)
-            t["checker"] = {"sync": "async", "values": "values_async", "flaky": "flaky_async"}[c["checker"]]
+            t["checker"], t["shape"], t["twin"] = base_kind(c["checker"]), shape, True
             return t
-        ti = run_impl([as_async(c) for c in twins])
-        si = run_impl(twins)
-        for c, a, s in zip(twins, ti, si):
+
+        def async_shape(c):
+            sh = case_shape(c.get("checker"), c.get("shape"))
+            if sh not in ("plain",):
+                return sh
+            return ASYNC_SHAPES[int(hashlib.sha256(case_key(c).encode()).hexdigest(), 16) % len(ASYNC_SHAPES)]
+
+        ta = [reshaped(c, async_shape(c)) for c in twins]
+        ti = run_impl(ta)
+        si = run_impl([reshaped(c, "plain") for c in twins])
+        for c, a, s in zip(ta, ti, si):
             da = [(norm_dec(r["decision"]), [x["q"] for x in r["calls"]]) for r in a["decisions"]]
             ds = [(norm_dec(r["decision"]), [x["q"] for x in r["calls"]]) for r in s["decisions"]]
-            chk.count("twin")
+            chk.count("twin:" + c["shape"])
             if da != ds:
-                chk.violation("a synchronous and an asynchronous checker with the same relationship data give different "
-                              "decisions or lookups (c13_sync_async_same)", c, impl={"sync": ds, "async": da})
+                chk.violation("a synchronous and an asynchronous checker (%s) with the same relationship data give different "
+                              "decisions or lookups (c13_sync_async_same)" % c["shape"], c, impl={"sync": ds, "async": da})
     # targeted search around correspondence breaks: vary the relationship data until the property itself fails
     if search and bad_cases and not chk.violations and not replay:
         vs = []
@@ -1024,12 +1151,14 @@ def ctx_with_rebac(rb, extra=None):
     return c
 
 
-def seq_case(fam, policy, reqs, checker, datas=None, strict=False, api="async", twin=False):
+def seq_case(fam, policy, reqs, checker, datas=None, strict=False, api="async", twin=False, shape=None):
     datas = datas or [{"salt": 0}]
     steps = [{"req": r, "data": datas[k % len(datas)]} for k, r in enumerate(reqs)]
     c = {"fam": fam, "kind": "seq", "policy": policy, "strict": strict, "api": api, "checker": checker, "steps": steps}
     if twin:
         c["twin"] = True
+    if shape:
+        c["shape"] = shape
     return c
 
 
@@ -1118,6 +1247,18 @@ def enumerated(chk):
     for (name, f), salt, (x, y) in itertools.product(OPCTX.items(), salts, [(A1, A2), (A1, A3), (a, A1)]):
         out.append(seq_case("ctxkey:" + name, single(f(copy.deepcopy(x), copy.deepcopy(y)), algo="permit-overrides"),
                             [mkreq(ctx={"_rebac": {"z": 1}})], ["sync", "async", "values"][salt % 3], [{"salt": salt}], twin=(salt % 3 == 0)))
+    # 9. every way a checker can be asynchronous x answer kind (affirmative / negative / non-bool / raising /
+    #    raising in bool() / never finishing) x operator context: same decisions and lookups as the plain checker
+    for shape, kind, name, salt in itertools.product(SHAPES + ["mixed"], ["sync", "values", "flaky", "raising", "badbool"],
+                                                     ["bare", "not_a", "or_ab", "and_ab", "nested"], range(2 if quick else 6)):
+        pol = single(OPCTX[name](copy.deepcopy(a), copy.deepcopy(b)), algo=["permit-overrides", "deny-overrides"][salt % 2])
+        api = ["async", "sync", "sync_in_loop"][(salt + len(name) + len(shape)) % 3]
+        out.append(seq_case("shape:" + shape, pol, [mkreq(ctx={"_rebac": {"ip": "10.0.0.1"}}), mkreq(sid="u2")], kind,
+                            [{"salt": salt}, {"salt": salt, "neg": True}], api=api, twin=(shape != "plain"), shape=shape))
+    for shape, mode in itertools.product(SHAPES + ["mixed"], ["all", "none"]):
+        for name in ("bare", "not_a"):
+            out.append(seq_case("shape:" + shape, single(OPCTX[name](copy.deepcopy(a), copy.deepcopy(b))), [mkreq()], "sync",
+                                [{"mode": mode}], twin=(shape != "plain"), shape=shape))
     return out
 
 
@@ -1186,7 +1327,8 @@ def random_cases(chk, n):
             reqs = reqs + [copy.deepcopy(reqs[0])]
         datas = [{"salt": rng.randrange(1000), "neg": rng.random() < 0.3} for _ in range(rng.choice([1, 2, 3]))]
         out.append(seq_case("random", pol, reqs, rng.choice(KINDS + ["sync", "async"]), datas, strict=rng.random() < 0.2,
-                            api=rng.choice(["async", "async", "async", "sync", "sync_in_loop"]), twin=rng.random() < 0.3))
+                            api=rng.choice(["async", "async", "async", "sync", "sync_in_loop"]), twin=rng.random() < 0.3,
+                            shape=rng.choice([None, None] + SHAPES + ["mixed"])))
     return out
 
 
@@ -1201,6 +1343,10 @@ def conc_cases(chk, n):
         kinds = rng.choice([("sync", "sync"), ("async", "async"), ("sync", "async"), ("mixed", "values"), ("async", None), ("flaky", "async")])
         engines = [{"policy": polA, "strict": False, "checker": kinds[0], "data": {"salt": salt}},
                    {"policy": polB, "strict": False, "checker": kinds[1], "data": {"salt": salt, "neg": True}}]
+        for e in engines:
+            sh = rng.choice([None] + SHAPES + ["mixed"])
+            if sh and e["checker"]:
+                e["shape"] = sh
         reqs = [rand_req(rng) for _ in range(rng.choice([2, 3]))]
         jobs = []
         for j in range(rng.choice([6, 10, 16])):
@@ -1213,10 +1359,17 @@ def conc_cases(chk, n):
 def slow_cases(chk, n):
     out = []
     a, b = node("viewer", short=True), node("editor", subject="group:g1", ctx={"ip": "1.2.3.4"})
+    shapes = [None] + ASYNC_SHAPES + ["mixed"]
     for salt in range(n):
         name = list(OPCTX)[salt % len(OPCTX)]
         pol = single(OPCTX[name](copy.deepcopy(a), copy.deepcopy(b)), algo="permit-overrides")
-        out.append(seq_case("slow:" + name, pol, [mkreq(), mkreq()], "slow", [{"salt": salt}, {"salt": salt + 50}]))
+        out.append(seq_case("slow:" + name, pol, [mkreq(), mkreq()], "slow", [{"salt": salt}, {"salt": salt + 50}],
+                            shape=shapes[salt % len(shapes)], twin=(salt % 2 == 0)))
+    # a lookup that never finishes under `not` / `or`, through every asynchronous shape
+    for k, shape in enumerate(ASYNC_SHAPES + ["mixed"]):
+        for name in ("not_a", "or_ab"):
+            out.append(seq_case("slow:shape:" + shape, single(OPCTX[name](copy.deepcopy(a), copy.deepcopy(b))), [mkreq()], "slow",
+                                [{"salt": 100 + k}], shape=shape, twin=(name == "not_a")))
     return out
 
 
@@ -1227,6 +1380,9 @@ def cond_cases(chk):
     for (name, f), memo, kind, salt in itertools.product(OPCTX.items(), [True, False, "nondict"], ["sync", "async", None, "raising", "values"], range(2)):
         out.append({"fam": "cond", "kind": "cond", "cond": f(copy.deepcopy(a), copy.deepcopy(b)), "env": env, "checker": kind,
                     "data": {"salt": salt}, "memo": memo})
+    for shape, kind, name in itertools.product(SHAPES + ["mixed"], ["sync", "flaky", "values"], ["not_a", "or_ab", "nested"]):
+        out.append({"fam": "cond:shape", "kind": "cond", "cond": OPCTX[name](copy.deepcopy(a), copy.deepcopy(b)), "env": env,
+                    "checker": kind, "shape": shape, "data": {"salt": 3}, "memo": True})
     return out
 
 
@@ -1280,7 +1436,7 @@ def run(chk):
     cases += hash_cases(chk)
     chk.exhaustive = True
     check_cases(chk, cases)
-    n = 4500 if quick else 40000
+    n = 4000 if quick else 40000
     while n > 0 and len(chk.violations) < 20:
         k = min(n, 4000)
         check_cases(chk, random_cases(chk, k))
